@@ -22,7 +22,7 @@ from pyvc.loops import while_invariant
 import wntr.sim.hydraulics as hyd
 from wntr.sim.core import WNTRSimulator
 
-P = ["C04", "C10", "C16"]
+P = ["C04", "C05", "C10", "C16"]
 K, R = 2, 2
 QN = "wntr.sim.core:WNTRSimulator._compute_next_timestep_and_run_presolve_controls_and_rules"
 RDO = z3.Function("rule_condition_true", z3.IntSort(), z3.IntSort(), z3.BoolSort())     # rule j at time t
